@@ -4,6 +4,7 @@ import (
 	"fmt"
 	"go/token"
 	"go/types"
+	"strings"
 
 	"ndndcheck/core"
 
@@ -196,6 +197,42 @@ func C15(c *core.Ctx) {
 								ok2 = true
 							}
 						}
+					}
+					// the first stored candidate is selected whatever its version (0 is a
+					// valid version: "nothing found yet" must not be represented by a version
+					// number a real packet can carry): the selecting successor of the
+					// comparison is reachable inside the iteration without crossing the
+					// comparison's own selecting edge
+					if iff, isIf := b.Block().Instrs[len(b.Block().Instrs)-1].(*ssa.If); isIf && iff.Cond == ssa.Value(b) {
+						selIdx := 0
+						if b.Op == token.LEQ || (b.Op == token.LSS && false) {
+							selIdx = 1
+						}
+						if (b.Op == token.GEQ || b.Op == token.LEQ) && false {
+							selIdx = 1
+						}
+						// cand > best selects on true; best < cand selects on true as well
+						sel := b.Block().Succs[selIdx]
+						alt := false
+						if h := loopHeader(b.Block()); h != nil {
+							cut := map[core.Edge]bool{{From: b.Block(), To: sel}: true}
+							for _, s0 := range h.Succs {
+								if core.ReachAvoiding(fn, s0, map[*ssa.BasicBlock]bool{sel: true}, cut) != nil {
+									// must stay inside the iteration: not through the header again
+									path := core.ReachAvoiding(fn, s0, map[*ssa.BasicBlock]bool{sel: true}, cut)
+									inIter := true
+									for i, pb := range path {
+										if i > 0 && pb == h {
+											inIter = false
+										}
+									}
+									if inIter {
+										alt = true
+									}
+								}
+							}
+						}
+						c.Decide(alt, "R15.2", "first-candidate-selected:"+t.Obj().Name()+":"+core.FuncName(fn), c.Pos(b), "a stored packet is selected when nothing was found yet, whatever its version", t.Obj().Name()+".Get (prefix lookup) selects a candidate only when its version is strictly greater than the initial value of the running maximum: a packet stored under that version (0, the documented version of immutable objects) is never found, so the object cannot be retrieved by its name")
 					}
 					c.Decide(ok2, "R15.2", key, c.Pos(b), "the version is compared with a running maximum that is updated on selection", t.Obj().Name()+".Get (prefix lookup) compares each candidate version with a value that is never updated inside the scan ("+describeValue(best)+"): it returns the last key with a version above that constant, not the newest version")
 				})
@@ -393,6 +430,9 @@ func C15(c *core.Ctx) {
 		c.Floor("R15.6", "FinalBlockID stores in Produce", nFB, 1)
 	}
 
+	c15Aliasing(c, pkg)
+	c15Scan(c)
+
 	if hd := c.Fn("R15.3", "std/object", "rrSegFetcher", "handleData"); hd != nil {
 		state := ssa.Value(hd.Params[2])
 		isCnt := func(v ssa.Value) bool { return isFieldLoad(core.StripConv(v), state, "segCnt") }
@@ -473,5 +513,278 @@ func C15(c *core.Ctx) {
 		}}
 		g := core.GateDeep(hd, makes, neg(over))
 		c.Decide(len(makes) > 0 && g.OK && g.PassEdges > 0, "R15.3", "segment-count-bounded-before-alloc", p.Pos(hd.Pos()), "the content buffer is allocated only when segCnt is within maxObjectSeg", "the content buffer is allocated from a FinalBlockId-derived count without an upper bound")
+	}
+}
+
+// c15Aliasing — R15.7: a name that is built by appending to a slice the function does not
+// own must not share its backing array with another name that is still in use.
+// (i) two appends to the same base in one function, the first result used after the
+// second append (the second overwrites the first's components when the base has spare
+// capacity); (ii) an append whose base is a field of a long-lived object and whose result
+// is handed to another goroutine (channel send, go statement, captured by a closure):
+// the next call appends to the same array before the first result was consumed.
+// A base is owned when it is fresh (make, literal, Clone, nil) or capacity-clipped
+// (`x[:len(x):len(x)]`, slices.Clip).
+func c15Aliasing(c *core.Ctx, pkg string) {
+	p := c.P
+	isName := func(t types.Type) bool {
+		n, ok := t.(*types.Named)
+		return ok && n.Obj().Name() == "Name" && n.Obj().Pkg() != nil && strings.HasSuffix(n.Obj().Pkg().Path(), "std/encoding")
+	}
+	owned := func(v ssa.Value) bool {
+		v = core.Strip(v)
+		switch x := v.(type) {
+		case *ssa.Const:
+			return true
+		case *ssa.MakeSlice:
+			return true
+		case *ssa.Slice:
+			if x.Max != nil && x.High != nil && (x.Max == x.High || core.Same(x.Max, x.High)) {
+				return true
+			}
+			if _, isAl := core.Strip(x.X).(*ssa.Alloc); isAl { // slice literal
+				return true
+			}
+		case *ssa.Call:
+			if id, ok := core.Callee(&x.Call); ok && (id.Name == "Clone" || id.Name == "Clip") {
+				return true
+			}
+		}
+		return false
+	}
+	nApp, nAll := 0, 0
+	for _, fn := range p.FuncsIn(pkg) {
+		if ps := fn.Pos(); ps.IsValid() && strings.HasSuffix(p.Fset.Position(ps).Filename, "_test.go") {
+			continue
+		}
+		var apps []*ssa.Call
+		core.Instrs(fn, func(in ssa.Instruction) {
+			if cl, ok := isBuiltinCall(in, "append"); ok && isName(cl.Type()) && len(cl.Call.Args) == 2 {
+				apps = append(apps, cl)
+			}
+		})
+		nAll += len(apps)
+		for i, a := range apps {
+			base := a.Call.Args[0]
+			if owned(base) {
+				c.Ok("R15.7", fmt.Sprintf("extended-name-owns-storage:%s#%d", core.FuncName(fn), i), c.Pos(a), "the base of the append is fresh or capacity-clipped: the new name has its own backing array")
+				continue
+			}
+			nApp++
+			c.Funcs[core.FuncName(fn)] = true
+			key := fmt.Sprintf("%s#%d", core.FuncName(fn), i)
+			// (i) a later append to the same base while this result is still used
+			bad := ""
+			for j, b2 := range apps {
+				if j == i || !(b2.Call.Args[0] == base || core.Same(b2.Call.Args[0], base)) {
+					continue
+				}
+				if !core.ReachableFrom(core.After(a), b2) {
+					continue
+				}
+				for _, u := range core.Refs(a) {
+					if u != ssa.Instruction(b2) && core.ReachableFrom(core.After(b2), u) {
+						bad = fmt.Sprintf("the name built at %s is still used at %s after %s appended to the same base slice", c.Pos(a), c.Pos(u), c.Pos(b2))
+					}
+				}
+			}
+			// (ii) base is a field of a long-lived object and the result leaves the goroutine
+			if bad == "" {
+				if root, path := core.FieldPath(base); len(path) > 0 {
+					if _, local := root.(*ssa.Alloc); !local {
+						if how := escapesGoroutine(a, 2); how != "" {
+							bad = fmt.Sprintf("the name built at %s by appending to the field %s is %s; the next call appends to the same backing array before that name was consumed", c.Pos(a), strings.Join(path, "."), how)
+						}
+					}
+				}
+			}
+			c.Decide(bad == "", "R15.7", "extended-name-owns-storage:"+key, c.Pos(a), "no second append to the same base while the result is in use, and the result does not leave the goroutine", bad+": two names share one backing array and the earlier one is overwritten (wrong segment requested / wrong name announced)")
+		}
+	}
+	c.Extra["name_appends_on_unowned_base"] = nApp
+	c.Floor("R15.7", "appends that build a name in std/object", nAll, 3)
+}
+
+func isLoadOfField(v ssa.Value) bool {
+	u, ok := core.Strip(v).(*ssa.UnOp)
+	if !ok || u.Op != token.MUL {
+		return false
+	}
+	_, ok = u.X.(*ssa.FieldAddr)
+	return ok
+}
+
+// escapesGoroutine: v (or a struct it is stored into) is sent on a channel, passed to a go
+// statement, captured by a closure, or passed to a static callee whose parameter does so.
+func escapesGoroutine(v ssa.Value, depth int) string {
+	seen := map[ssa.Value]bool{}
+	var walk func(v ssa.Value, depth int) string
+	walk = func(v ssa.Value, depth int) string {
+		if seen[v] {
+			return ""
+		}
+		seen[v] = true
+		for _, r := range core.Refs(v) {
+			switch x := r.(type) {
+			case *ssa.Send:
+				if x.X == v {
+					return "sent on a channel"
+				}
+			case *ssa.Go:
+				return "passed to a go statement"
+			case *ssa.MakeClosure:
+				return "captured by a closure"
+			case *ssa.Store:
+				if x.Val == v {
+					// stored into a local struct cell: follow loads of the whole cell
+					var al0 *ssa.Alloc
+					if fa, ok := x.Addr.(*ssa.FieldAddr); ok {
+						al0, _ = core.Strip(fa.X).(*ssa.Alloc)
+					} else {
+						al0, _ = x.Addr.(*ssa.Alloc)
+					}
+					{
+						if al := al0; al != nil {
+							for _, r2 := range core.Refs(al) {
+								if u, ok := r2.(*ssa.UnOp); ok && u.Op == token.MUL {
+									if how := walk(u, depth); how != "" {
+										return how
+									}
+								}
+							}
+						}
+					}
+				}
+			case *ssa.Call:
+				if depth > 0 {
+					if cal := x.Call.StaticCallee(); cal != nil && cal.Blocks != nil {
+						for i, a := range x.Call.Args {
+							if a == v && i < len(cal.Params) {
+								if how := walk(cal.Params[i], depth-1); how != "" {
+									return how + " (in " + core.FuncName(cal) + ")"
+								}
+							}
+						}
+					}
+				}
+			case *ssa.Field:
+				if how := walk(x, depth); how != "" {
+					return how
+				}
+			case *ssa.ChangeType, *ssa.MakeInterface, *ssa.Phi:
+				if how := walk(x.(ssa.Value), depth); how != "" {
+					return how
+				}
+			}
+		}
+		return ""
+	}
+	return walk(v, depth)
+}
+
+// c15Scan — R15.8: the round-robin scan of the segment fetcher terminates. When the scan
+// loop ends on meeting a remembered element again ("we've gone full circle"), that
+// element must not be one the same iteration can remove from the list: a removed element
+// is never met again and the loop spins forever while holding the client's goroutine.
+func c15Scan(c *core.Ctx) {
+	fn := c.Fn("R15.8", "std/object", "rrSegFetcher", "doCheck")
+	if fn == nil {
+		return
+	}
+	var nexts []*ssa.Call
+	core.Instrs(fn, func(in ssa.Instruction) {
+		if cl, ok := in.(*ssa.Call); ok {
+			if id, ok := core.Callee(&cl.Call); ok && id.Recv == "rrSegFetcher" && id.Name == "next" && core.InLoop(cl.Block()) {
+				nexts = append(nexts, cl)
+			}
+		}
+	})
+	c.Floor("R15.8", "round-robin scan loops", len(nexts), 1)
+	for _, nx := range nexts {
+		h := loopHeader(nx.Block())
+		if h == nil {
+			continue
+		}
+		// the scanned element: the call's result, or a load of the local cell it is stored in
+		var cell *ssa.Alloc
+		for _, r := range core.Refs(nx) {
+			if st, ok := r.(*ssa.Store); ok && st.Val == ssa.Value(nx) {
+				if al, ok := st.Addr.(*ssa.Alloc); ok {
+					cell = al
+				}
+			}
+		}
+		isScanned := func(v ssa.Value) bool {
+			v = core.Strip(v)
+			if v == ssa.Value(nx) {
+				return true
+			}
+			if u, ok := v.(*ssa.UnOp); ok && u.Op == token.MUL && cell != nil && u.X == ssa.Value(cell) {
+				return true
+			}
+			return false
+		}
+		// sentinel: a phi of the loop header one of whose edges is the scanned element
+		var sentinel *ssa.Phi
+		var assignPred *ssa.BasicBlock
+		for _, in := range h.Instrs {
+			ph, ok := in.(*ssa.Phi)
+			if !ok {
+				break
+			}
+			var walk func(v ssa.Value, from *ssa.BasicBlock, d int)
+			walk = func(v ssa.Value, from *ssa.BasicBlock, d int) {
+				if d > 4 {
+					return
+				}
+				if isScanned(v) {
+					sentinel, assignPred = ph, from
+					return
+				}
+				if p2, ok := core.Strip(v).(*ssa.Phi); ok && p2 != ph {
+					for i, e := range p2.Edges {
+						walk(e, p2.Block().Preds[i], d+1)
+					}
+				}
+			}
+			for i, e := range ph.Edges {
+				walk(e, h.Preds[i], 0)
+			}
+		}
+		if sentinel == nil {
+			c.Ok("R15.8", "scan-sentinel-not-removed", c.Pos(nx), "the scan does not end on meeting a remembered element again (bounded otherwise)")
+			continue
+		}
+		// removal of the scanned element inside the same iteration after it became the sentinel
+		bad := ""
+		core.Instrs(fn, func(in ssa.Instruction) {
+			cl, ok := in.(*ssa.Call)
+			if !ok {
+				return
+			}
+			id, ok := core.Callee(&cl.Call)
+			if !ok || id.Recv != "rrSegFetcher" || id.Name != "remove" {
+				return
+			}
+			_, args := core.CallArgs(&cl.Call)
+			if len(args) != 1 || !isScanned(args[0]) {
+				return
+			}
+			// reachable from the assignment without passing the loop header?
+			var start *ssa.BasicBlock = assignPred
+			if start == nil {
+				return
+			}
+			target := map[*ssa.BasicBlock]bool{cl.Block(): true}
+			// paths that do not cross the header
+			cut := map[core.Edge]bool{}
+			for _, pr := range h.Preds {
+				cut[core.Edge{From: pr, To: h}] = true
+			}
+			if start == cl.Block() || core.ReachAvoiding(fn, start, target, cut) != nil {
+				bad = c.Pos(cl)
+			}
+		})
+		c.Decide(bad == "", "R15.8", "scan-sentinel-not-removed", c.Pos(nx), "the element remembered to detect a full circle cannot be removed in the iteration that remembers it", "doCheck remembers the first scanned stream to detect a full circle, but the same iteration can remove that stream from the list ("+bad+"): it is never met again and the scan loops forever (the client goroutine hangs; no other object completes)")
 	}
 }
